@@ -757,11 +757,12 @@ class HDF5DataFrame(DataFrame):
         # validate groupby keys
         by = val.validate_selected_keys(by, self._columns.keys())
 
-        # check if keys is sorted
-        by_fields_data = np.asarray([self._columns[k].data[:] for k in by])
+        # the key columns, each as an array (an indexed string field reads as a list of str)
+        by_fields_data = [np.asarray(self._columns[k].data[:]) for k in by]
 
+        # check if keys is sorted
         if not hint_keys_is_sorted:
-            is_sorted = ops.check_if_sorted_for_multi_fields(by_fields_data)
+            is_sorted = ops.check_if_sorted_for_multi_fields(np.asarray(by_fields_data))
         else:
             is_sorted = True
 
@@ -771,11 +772,9 @@ class HDF5DataFrame(DataFrame):
             readers = tuple(self._columns[k] for k in by)
             sorted_index = self._dataset.session.dataset_sort_index(readers, np.arange(len(readers[0].data), dtype=np.uint32))
 
-            sorted_by_fields_data = np.asarray([self._columns[k].data[:][sorted_index] for k in by])
-        else:
-            sorted_by_fields_data = np.asarray([self._columns[k].data[:] for k in by])
+            by_fields_data = [data[sorted_index] for data in by_fields_data]
 
-        spans = ops._get_spans_for_multi_fields(sorted_by_fields_data)
+        spans = ops._get_spans_for_multi_fields(np.asarray(by_fields_data))
         
         return HDF5DataFrameGroupBy(self._columns, by, sorted_index, spans)
 
